@@ -324,6 +324,9 @@ func (u *Unit) libModel(st *State, e *ast.CallExpr, callee *types.Func, ca callA
 		if r, ok := u.sortSliceModel(st, e, ca); ok {
 			return r, true
 		}
+		if r, ok := u.sortSliceGeneric(st, e, ca); ok {
+			return r, true
+		}
 	case "errors.New":
 		r := c.fresh("err", "Int")
 		st.assume("(> " + r + " 1000)")
@@ -882,6 +885,145 @@ func (u *Unit) sortSliceModel(st *State, e *ast.CallExpr, ca callArgs) (Term, bo
 	return Term{Tuple: []Term{}}, true
 }
 
+// sortSliceGeneric: sort.Slice(s, less) with a side-effect free comparator of a shape the order model above does not
+// understand (a fnpure function parameter, or a literal that only reads and calls fnpure parameters / bytes.Compare).
+// Trusted: sort.Slice only swaps elements of s and calls less; nothing is said about the resulting order. With
+// `option sort-members[-fwd|-bwd]` the result has the same elements as the input.
+func (u *Unit) sortSliceGeneric(st *State, e *ast.CallExpr, ca callArgs) (Term, bool) {
+	c := u.c
+	if len(e.Args) != 2 || !u.pureComparator(e.Args[1]) {
+		return Term{}, false
+	}
+	s := u.eval(st, e.Args[0])
+	if s.T == nil {
+		return Term{}, false
+	}
+	if _, ok := s.T.Underlying().(*types.Slice); !ok {
+		return Term{}, false
+	}
+	oldBlk := u.sliceBlock(st, s)
+	u.havocSliceElems(st, s)
+	newBlk := u.sliceBlock(st, s)
+	at := func(blk, i string) string { return fmt.Sprintf("(select %s %s)", blk, c.idxAdd(sOff(s.S), i)) }
+	u.c.n++
+	a, b := fmt.Sprintf("a_q%d", u.c.n), fmt.Sprintf("b_q%d", u.c.n)
+	zero := c.idxConst(0)
+	if u.ct != nil && (u.ct.Options["sort-members"] || u.ct.Options["sort-members-fwd"]) {
+		st.assume(fmt.Sprintf("(forall ((%s %s)) (! %s :pattern (%s)))", a, c.idxSort(), implies(and(c.idxLe(zero, a), c.idxLt(a, sLen(s.S))),
+			fmt.Sprintf("(exists ((%s %s)) %s)", b, c.idxSort(), and(c.idxLe(zero, b), c.idxLt(b, sLen(s.S)), eq(at(newBlk, a), at(oldBlk, b))))), at(newBlk, a)))
+	}
+	if u.ct != nil && (u.ct.Options["sort-members"] || u.ct.Options["sort-members-bwd"]) {
+		st.assume(fmt.Sprintf("(forall ((%s %s)) (! %s :pattern (%s)))", a, c.idxSort(), implies(and(c.idxLe(zero, a), c.idxLt(a, sLen(s.S))),
+			fmt.Sprintf("(exists ((%s %s)) %s)", b, c.idxSort(), and(c.idxLe(zero, b), c.idxLt(b, sLen(s.S)), eq(at(oldBlk, a), at(newBlk, b))))), at(oldBlk, a)))
+	}
+	if fl, ok := ast.Unparen(e.Args[1]).(*ast.FuncLit); ok {
+		u.eng.noteFuncLit(u, fl)
+	}
+	u.c.note("sort.Slice with a side-effect free comparator: elements of the slice permuted, order not modelled (trusted library model)")
+	return Term{Tuple: []Term{}}, true
+}
+
+// pureComparator: the comparator handed to sort.Slice cannot write anything: a function parameter declared `fnpure`, or a
+// literal whose body is a single return of an expression built from reads, operators and calls of fnpure parameters,
+// bytes.Compare / bytes.Equal, or such literals bound to local variables.
+func (u *Unit) pureComparator(x ast.Expr) bool {
+	x = ast.Unparen(x)
+	if id, ok := x.(*ast.Ident); ok {
+		if u.ct != nil && u.ct.FnPure[id.Name] {
+			return true
+		}
+		if v, ok := u.info.Uses[id].(*types.Var); ok {
+			if fl := u.litOfVar[v]; fl != nil {
+				return u.pureComparator(fl)
+			}
+		}
+		return false
+	}
+	fl, ok := x.(*ast.FuncLit)
+	if !ok {
+		return false
+	}
+	pure := true
+	var checkExpr func(n ast.Node) bool
+	checkExpr = func(n ast.Node) bool {
+		switch y := n.(type) {
+		case *ast.CallExpr:
+			fn := ast.Unparen(y.Fun)
+			okCall := false
+			if id, ok := fn.(*ast.Ident); ok {
+				if u.ct != nil && u.ct.FnPure[id.Name] {
+					okCall = true
+				} else if v, ok := u.info.Uses[id].(*types.Var); ok && u.litOfVar[v] != nil && u.pureComparator(u.litOfVar[v]) {
+					okCall = true
+				} else if _, isType := u.info.Uses[id].(*types.TypeName); isType {
+					okCall = true // conversion
+				} else if b, isB := u.info.Uses[id].(*types.Builtin); isB && (b.Name() == "len" || b.Name() == "cap") {
+					okCall = true
+				}
+			}
+			if se, ok := fn.(*ast.SelectorExpr); ok {
+				if f, ok := u.info.Uses[se.Sel].(*types.Func); ok {
+					switch f.FullName() {
+					case "bytes.Compare", "bytes.Equal", "strings.Compare":
+						okCall = true
+					}
+				}
+			}
+			if !okCall {
+				pure = false
+			}
+		case *ast.FuncLit:
+			pure = false
+		}
+		return pure
+	}
+	for _, stmt := range fl.Body.List {
+		switch y := stmt.(type) {
+		case *ast.ReturnStmt:
+			for _, r := range y.Results {
+				ast.Inspect(r, checkExpr)
+			}
+		case *ast.IfStmt:
+			// if/else chains of returns (three-way comparators)
+			var walk func(is *ast.IfStmt)
+			walk = func(is *ast.IfStmt) {
+				if is.Init != nil {
+					pure = false
+				}
+				ast.Inspect(is.Cond, checkExpr)
+				for _, b := range is.Body.List {
+					if r, ok := b.(*ast.ReturnStmt); ok {
+						for _, x := range r.Results {
+							ast.Inspect(x, checkExpr)
+						}
+					} else {
+						pure = false
+					}
+				}
+				switch el := is.Else.(type) {
+				case nil:
+				case *ast.IfStmt:
+					walk(el)
+				case *ast.BlockStmt:
+					for _, b := range el.List {
+						if r, ok := b.(*ast.ReturnStmt); ok {
+							for _, x := range r.Results {
+								ast.Inspect(x, checkExpr)
+							}
+						} else {
+							pure = false
+						}
+					}
+				}
+			}
+			walk(y)
+		default:
+			pure = false
+		}
+	}
+	return pure
+}
+
 func fixedSize(t types.Type) (int64, bool) {
 	if t == nil {
 		return 0, false
@@ -1088,7 +1230,12 @@ func (u *Unit) externalCall(st *State, e *ast.CallExpr, callee *types.Func, ca c
 			}
 			if pt, ok := a.T.Underlying().(*types.Pointer); ok {
 				if nm, ok := pt.Elem().(*types.Named); ok && nm.Obj().Pkg() != nil && u.eng.isRepoPkg(nm.Obj().Pkg().Path()) {
-					reach = true
+					if _, isStruct := nm.Underlying().(*types.Struct); isStruct {
+						reach = true
+					}
+				} else if !hasStreamMethod(a.T) {
+					// a pointer to an external plain-data type (no reading/writing method): no byte counter is attached to it
+					continue
 				}
 			}
 			for _, g := range []string{"consumed", "written"} {
@@ -1108,6 +1255,17 @@ func (u *Unit) externalCall(st *State, e *ast.CallExpr, callee *types.Func, ca c
 	allocBefore := st.alloc
 	u.bumpAlloc(st)
 	rs := u.freshResults(st, sig, "x_"+callee.Name())
+	// assumed result ranges of dependency functions (read off their source; listed in the trusted base)
+	switch callee.FullName() {
+	case "(*github.com/gagliardetto/binary.Decoder).ReadCompactU16":
+		// compact-u16.go: returns 0 with an error unless 0 <= ln <= math.MaxUint16
+		if len(rs) >= 1 && !c.bv {
+			st.assume(and("(<= 0 "+rs[0].S+")", "(<= "+rs[0].S+" 65535)"))
+		} else if len(rs) >= 1 {
+			st.assume(fmt.Sprintf("(bvule %s %s)", rs[0].S, c.idxConst(65535)))
+		}
+		u.c.note("assumed dependency contract: ReadCompactU16 returns a value in 0..65535")
+	}
 	if n := callee.Name(); (strings.HasPrefix(n, "New") || strings.HasPrefix(n, "Open") || strings.HasPrefix(n, "Create")) && len(rs) >= 1 {
 		// library convention (trusted): constructors return freshly allocated objects
 		if _, isPtr := sig.Results().At(0).Type().Underlying().(*types.Pointer); isPtr {
@@ -1134,6 +1292,19 @@ func (u *Unit) externalCall(st *State, e *ast.CallExpr, callee *types.Func, ca c
 		}
 	}
 	return resultTerm(rs)
+}
+
+// hasStreamMethod: the method set of t contains a method that consumes from or writes to a byte stream.
+func hasStreamMethod(t types.Type) bool {
+	ms := types.NewMethodSet(t)
+	for i := 0; i < ms.Len(); i++ {
+		switch ms.At(i).Obj().Name() {
+		case "Read", "Write", "ReadByte", "WriteByte", "ReadAt", "WriteAt", "ReadFrom", "WriteTo", "WriteString", "ReadString",
+			"ReadBytes", "ReadRune", "Peek", "Discard", "Flush", "Seek", "Decode", "Encode", "Next", "Scan", "Close", "Sync", "Truncate":
+			return true
+		}
+	}
+	return false
 }
 
 // readOnlyExternal: external methods that by their documented contract do not modify their slice arguments
